@@ -143,3 +143,20 @@ Proof. intros s v A B C. apply classification_lifted. repeat split; assumption. 
 
 Lemma L_example : In 49199 all_suites /\ In 3 all_versions /\ negotiable 49199 3 = true.
 Proof. split; [|split]; vm_compute; auto 200. Qed.
+
+(* beyond the property: a known id whose static classification deviates from its name
+   (Model/C20_Classify.v chk_static: record-layer settings, accessors, membership in every list the
+   record layer / key derivation / version filter consult) can never be negotiated *)
+Lemma static_defects_all :
+  forallb (fun s => forallb (fun v => negb (negotiable s v)) all_versions) static_defects = true.
+Proof. vm_compute. reflexivity. Qed.
+
+Lemma L_static_defects : forall s v,
+  In s all_suites -> In v all_versions -> chk_static s = false -> negotiable s v = false.
+Proof.
+  intros s v Hs Hv Hc. pose proof static_defects_all as H. rewrite forallb_forall in H.
+  assert (Hin : In s static_defects).
+  { unfold static_defects. apply filter_In. split; [exact Hs|]. rewrite Hc. reflexivity. }
+  specialize (H s Hin). rewrite forallb_forall in H. specialize (H v Hv).
+  apply negb_true_iff in H. exact H.
+Qed.
